@@ -129,6 +129,58 @@ def _shard_entry(args):
         return ("harness", "".join(traceback.format_exception(e)))
 
 
+def _fork_map(func, shard_kwargs, procs):
+    """One forked process per shard (fresh state for every shard), at most `procs` at a time; a worker that dies ends the run with a
+    harness error instead of being waited for (what multiprocessing.Pool does)."""
+    import pickle
+    import tempfile
+    pending = list(enumerate(shard_kwargs))
+    running = {}
+    results = [None] * len(shard_kwargs)
+    tmpdir = tempfile.mkdtemp(prefix="nv-shards-")
+    try:
+        while pending or running:
+            while pending and len(running) < procs:
+                idx, kw = pending.pop(0)
+                path = os.path.join(tmpdir, "%d.pkl" % idx)
+                sys.stdout.flush()
+                sys.stderr.flush()
+                pid = os.fork()
+                if pid == 0:
+                    code = 3
+                    try:
+                        res = _shard_entry((func, kw))
+                        with open(path, "wb") as f:
+                            pickle.dump(res, f)
+                        code = 0
+                    finally:
+                        os._exit(code)
+                running[pid] = (idx, path)
+            pid, st = os.wait()
+            if pid not in running:
+                continue
+            idx, path = running.pop(pid)
+            code = os.waitstatus_to_exitcode(st)
+            if code != 0 or not os.path.exists(path):
+                for other in running:
+                    try:
+                        os.kill(other, 9)
+                    except OSError:
+                        pass
+                for other in list(running):
+                    try:
+                        os.waitpid(other, 0)
+                    except OSError:
+                        pass
+                raise HarnessError("worker for shard %d died (exit status %s)" % (idx, code))
+            with open(path, "rb") as f:
+                results[idx] = pickle.load(f)
+    finally:
+        import shutil
+        shutil.rmtree(tmpdir, ignore_errors=True)
+    return results
+
+
 def run_shards(func, shard_kwargs, procs=None):
     """Run func(**kw) for every kw in shard_kwargs in separate forked processes; merge."""
     procs = procs or min(len(shard_kwargs), int(os.environ.get("NV_PROCS", "16")))
@@ -136,9 +188,7 @@ def run_shards(func, shard_kwargs, procs=None):
     if procs <= 1 or len(shard_kwargs) == 1:
         results = [_shard_entry((func, kw)) for kw in shard_kwargs]
     else:
-        ctx = mp.get_context("fork")
-        with ctx.Pool(procs, maxtasksperchild=1) as pool:
-            results = pool.map(_shard_entry, [(func, kw) for kw in shard_kwargs], chunksize=1)
+        results = _fork_map(func, shard_kwargs, procs)
     for status, payload in results:
         if status != "ok":
             raise HarnessError("worker failed:\n" + payload)
